@@ -1,10 +1,10 @@
 (* Property C18: policies in force follow the policy files; the built-in policies are
    untouchable; invalid files are rejected as a whole.
    Models: Monitor/Monitor.v (scan_policies), Monitor/Spec.v (the property). *)
-From Coq Require Import ZArith List Bool.
-From PK Require Import Monitor.AList Monitor.Monitor Monitor.Spec Monitor.Views Monitor.Refine Monitor.Wf Monitor.Broken Monitor.Confluence.
+From Coq Require Import ZArith List Bool String.
+From PK Require Import Monitor.AList Monitor.Monitor Monitor.Spec Monitor.Views Monitor.Refine Monitor.Wf Monitor.Broken Monitor.Confluence Monitor.EngineSide.
 From PK Require Import Monitor.Parse Monitor.ParseProofs Monitor.ParseCases Monitor.MonitorCases.
-From PKGen Require Import PolicyNames.
+From PKGen Require Import PolicyNames EnginePolicy.
 Import ListNotations.
 Open Scope Z_scope.
 
@@ -143,6 +143,61 @@ Theorem dropped_names_order_irrelevant : forall f p p' m q, p <> p' ->
   view_of (step (step m p) p') q = view_of (step (step m p') p) q.
 Proof. exact dropped_names_comm. Qed.
 Print Assumptions dropped_names_order_irrelevant.
+
+(* ------------------------------------------------------------------ what the engine applies *)
+(* "In force" is what the engine applies.  engine_decision is KmipEngine._is_allowed_by_operation_policy reading
+   the SHARED store at request time (gen/EnginePolicy.v, emitted only when the source reads
+   self._operation_policies.get(name) on every call and keeps nothing); spec_decision is the same decision over
+   the specification's map.  For every event history - hence after every scan, each prefix being a history -
+   every policy name, object owner, object type, operation, requester and group list: *)
+Theorem engine_applies_what_files_say : forall dtab s h, Forall wf_fs h ->
+  forall name owner ot op user groups,
+    engine_decision dtab (st_store (run_gen true s h)) name owner ot op user groups =
+    spec_decision dtab (spec_run s h) name owner ot op user groups.
+Proof. exact engine_follows_spec_fixed. Qed.
+Print Assumptions engine_applies_what_files_say.
+
+(* the variant the source is today; for the released loop only without a shadowed drop *)
+Theorem engine_applies_what_files_say_current : forall dtab s h, Forall wf_fs h ->
+  monitor_purges_shadowed = true \/ hist_ok s h = true ->
+  forall name owner ot op user groups,
+    engine_decision dtab (st_store (run_gen monitor_purges_shadowed s h)) name owner ot op user groups =
+    spec_decision dtab (spec_run s h) name owner ot op user groups.
+Proof. exact engine_follows_spec_current. Qed.
+Print Assumptions engine_applies_what_files_say_current.
+
+(* built-ins: decided by the initial store entry, whatever the files say *)
+Theorem engine_builtins_untouched : forall purge dtab s h, Forall wf_fs h ->
+  forall name, reserved name = true -> forall owner ot op user groups,
+    engine_decision dtab (st_store (run_gen purge s h)) name owner ot op user groups =
+    decision_of dtab (get name s) owner ot op user groups.
+Proof. exact engine_builtin_untouched. Qed.
+Print Assumptions engine_builtins_untouched.
+
+(* a name no loaded present file defines grants to nobody *)
+Theorem engine_undefined_name_grants_nobody : forall dtab s h, Forall wf_fs h ->
+  forall name, reserved name = false -> definers (a_loaded (spec_run s h)) name = [] ->
+  forall owner ot op user groups,
+    engine_decision dtab (st_store (run_gen true s h)) name owner ot op user groups = false.
+Proof. exact engine_undefined_grants_nobody. Qed.
+Print Assumptions engine_undefined_name_grants_nobody.
+
+(* the decisions along good_history for name 2 (p): shadowed by b (owner only), restored from a (everybody)
+   after b drops it, gone after a drops it; a group member is served by the groups section only *)
+Definition sample_dtab (d : Z) : option parsed :=
+  let sym perm := [("SYMMETRIC_KEY", [("GET", perm)])]%string in
+  if d =? 10 then Some (Parsed (Some (sym "ALLOW_ALL"%string)) None)
+  else if d =? 11 then Some (Parsed (Some (sym "ALLOW_OWNER"%string)) (Some [("g"%string, sym "ALLOW_ALL"%string)]))
+  else if d =? 90 then Some (Parsed (Some (sym "ALLOW_OWNER"%string)) None)
+  else None.
+Example engine_decisions_along_good_history :
+  let dec k user groups := engine_decision sample_dtab (st_store (run_gen true [(0, 90); (1, 91)] (firstn k good_history)))
+                             2 "alice"%string "SYMMETRIC_KEY"%string "GET"%string user groups in
+  map (fun k => (dec k "alice"%string None, dec k "bob"%string None, dec k "bob"%string (Some ["g"%string])))
+      [0; 1; 2; 3; 4; 5; 6]%nat =
+  [ (false, false, false); (true, true, false); (true, false, true); (true, false, true);
+    (true, true, false); (false, false, false); (false, false, false) ].
+Proof. vm_compute. reflexivity. Qed.
 
 (* ------------------------------------------------------------------ the parser *)
 (* Whatever the file holds - not JSON, or any JSON value - and whatever the enumerations
